@@ -83,7 +83,12 @@ func (osf *OSTypeFn) SetOSType(osType OSType) error {
 		osType = CurrentOSType()
 	}
 
-	if BuildFeatures()&FeatSetOSType != 0 && osType != CurrentOSType() {
+	if BuildFeatures()&FeatSetOSType == 0 && osType != CurrentOSType() {
+		if osf.osType == OsUnknown {
+			// keep a usable OS type and path separator.
+			_ = osf.SetOSType(CurrentOSType())
+		}
+
 		return ErrSetOSType
 	}
 
